@@ -776,8 +776,11 @@ static void *tramp(void *a)
 	return NULL;
 }
 
+extern void tp_mark_threads_started(void) __attribute__((weak));
 int rs_thread_create(void *(*fn)(void *), void *arg)
 {
+	if(tp_mark_threads_started)
+		tp_mark_threads_started();
 	if(!rs_active())
 		rs_engine_error("rs_thread_create outside an execution");
 	if(nth >= RS_MAXT)
